@@ -12,6 +12,7 @@ package main
 //   c08read    reader only: message bytes + stored chunk -> ApplyFilters (malformed-input stream)
 
 import (
+	"math"
 	"bytes"
 	"encoding/hex"
 	"encoding/json"
@@ -510,7 +511,19 @@ func c08E2ERun(raw json.RawMessage) (interface{}, error) {
 		res["read_err"] = err.Error()
 		return res, nil
 	}
-	res["values"] = vals
+	// encoding/json refuses NaN and infinities: a tree that returns such values for finite data must still produce a result
+	out := make([]interface{}, len(vals))
+	for i, v := range vals {
+		switch {
+		case math.IsNaN(v):
+			out[i] = "NaN"
+		case math.IsInf(v, 0):
+			out[i] = fmt.Sprint(v)
+		default:
+			out[i] = v
+		}
+	}
+	res["values"] = out
 	return res, nil
 }
 
